@@ -86,9 +86,8 @@ Fixpoint hop_iter (n k : nat) (adj pw ret : bmat) : bmat :=
   | S k' => let pw' := bmul n pw adj in hop_iter n k' adj pw' (bor ret pw')
   end.
 
-(* include_self_loop=False: return_adj - eye.  (For a vertex that belongs to
-   no element femio's result has -1 on the diagonal; such meshes are excluded
-   by [wf_mesh].) *)
+(* include_self_loop=False: the diagonal that is present is removed
+   (return_adj - diags(return_adj.diagonal())) *)
 Definition remove_diag (A : bmat) : bmat :=
   mapi (fun i row => mapi (fun j b => b && negb (Nat.eqb i j)) row) A.
 
@@ -316,6 +315,30 @@ Definition mesh_rows (o : opts) (kern : V3 -> T) (m : mesh) (evol : list T)
       Some (make_rows kern P (vertex_volumes o (length (m_nodes m)) inc evol) A)
   end.
 
+(* order1_only=True on second-order elements (tet2: k1 = 4, hex2: k1 = 8):
+   elements.to_first_order() keeps the first k1 node ids of every element;
+   filter_first_order_nodes() keeps, in storage order, the nodes whose id
+   occurs there (ORDER1_NODE).  In nodal mode positions, ids, adjacency and
+   nodal volumes are all taken from this reduced mesh; elemental mode ignores
+   the option (centroids over all nodes, element adjacency over all nodes). *)
+Definition order1_mask (k1 : nat) (m : mesh) : list bool :=
+  let used := flat_map (fun e => firstn k1 (snd e)) (m_elems m) in
+  map (fun nd => existsb (Z.eqb (fst nd)) used) (m_nodes m).
+
+Fixpoint select {X} (mask : list bool) (l : list X) : list X :=
+  match mask, l with
+  | b :: mask', x :: l' => if b then x :: select mask' l' else select mask' l'
+  | _, _ => []
+  end.
+
+Definition first_order_mesh (k1 : nat) (m : mesh) : mesh :=
+  mkMesh (select (order1_mask k1 m) (m_nodes m))
+         (map (fun e => (fst e, firstn k1 (snd e))) (m_elems m)).
+
+Definition mesh_view (order1 : bool) (k1 : nat) (o : opts) (m : mesh) : mesh :=
+  if order1 then match o_mode o with Nodal => first_order_mesh k1 m | Elemental => m end
+  else m.
+
 (* calculate_spatial_gradient_adjacency_matrices *)
 Definition spatial_gradient_adjacency_matrices (o : opts) (kern : V3 -> T) (m : mesh)
            (evol : list T) : option (list (list (nat * nat * T))) :=
@@ -348,6 +371,21 @@ Definition spatial_gradients (o : opts) (kern : V3 -> T) (m : mesh) (evol : list
       let n := length data in
       Some (stack_axis1 n (map (fun A => spmm n nfeat A data) As))
   end.
+
+(* the same two entry points with the order1_only option;
+   nodal convenience function: grad_adj.dot(nodal_data[filter_]) *)
+Definition spatial_gradient_adjacency_matrices_x (order1 : bool) (k1 : nat) (o : opts)
+           (kern : V3 -> T) (m : mesh) (evol : list T) :=
+  spatial_gradient_adjacency_matrices o kern (mesh_view order1 k1 o m) evol.
+
+Definition spatial_gradients_x (order1 : bool) (k1 : nat) (o : opts) (kern : V3 -> T)
+           (m : mesh) (evol : list T) (nfeat : nat) (data : list (list T)) :=
+  spatial_gradients o kern (mesh_view order1 k1 o m) evol nfeat
+    (if order1 then match o_mode o with
+                    | Nodal => select (order1_mask k1 m) data
+                    | Elemental => data
+                    end
+     else data).
 
 End Model.
 
